@@ -74,3 +74,21 @@ fn ordinary_names_still_work() {
     assert!(extra_debuginfo_lookup(&m).is_some());
     assert!(code_info_breakpad_sym_lookup(&m).is_some());
 }
+
+#[test]
+fn drive_relative_names() {
+    // fixed by 65f0aa4: `C:foo.pdb` has no separator; the drive prefix must not start the relative path
+    for (code, debug) in [("C:foo.dll", "C:foo.pdb"), ("/usr/lib/d:e:libx.so", "c:\\build\\D:x.pdb")] {
+        let m = module(code, debug);
+        for l in [breakpad_sym_lookup(&m), extra_debuginfo_lookup(&m), binary_lookup(&m)].into_iter().flatten() {
+            for rel in [&l.cache_rel, &l.server_rel] {
+                let b = rel.as_bytes();
+                assert!(!(b.len() >= 2 && b[1] == b':' && b[0].is_ascii_alphabetic()), "`{rel}` starts with a drive prefix");
+            }
+        }
+        if let Some(rel) = code_info_breakpad_sym_lookup(&m) {
+            let b = rel.as_bytes();
+            assert!(!(b.len() >= 2 && b[1] == b':' && b[0].is_ascii_alphabetic()), "`{rel}` starts with a drive prefix");
+        }
+    }
+}
